@@ -83,13 +83,16 @@ def snapshot_defaults(defaults):
     return out
 
 
-def new_enforcer(box, variant, enforce_new, defaults=None, overwrite=True, warn=False, nreg=None):
+def new_enforcer(box, variant, enforce_new, defaults=None, overwrite=True, warn=False, nreg=None, dup_dirs=False):
     from oslo_config import cfg
     from oslo_policy import policy
     conf = cfg.ConfigOpts()
     conf([], project='verif', default_config_files=[], default_config_dirs=[])
     e = policy.Enforcer(conf, policy_file=box.path('main'), overwrite=overwrite)
-    conf.set_override('policy_dirs', box.dirs(), group='oslo_policy')
+    dirs = box.dirs()
+    if dup_dirs:
+        dirs = [dirs[0], dirs[1], dirs[0], dirs[2]]
+    conf.set_override('policy_dirs', dirs, group='oslo_policy')
     conf.set_override('enforce_new_defaults', bool(enforce_new), group='oslo_policy')
     e.suppress_deprecation_warnings = not warn
     dl = defaults if defaults is not None else defaults_for(variant)
@@ -144,7 +147,7 @@ def apply_fs(box, ev):
 class Live:
     """one long-lived enforcer with its own files, driven along a history"""
 
-    def __init__(self, rng, variant, enforce_new, defaults=None, via='enforce', overwrite=True, warn=None, box=None, late=False):
+    def __init__(self, rng, variant, enforce_new, defaults=None, via='enforce', overwrite=True, warn=None, box=None, late=False, dup_dirs=False):
         self.box = box if box is not None else fsbox.Box(rng)
         self.rng = rng
         self.own_box = box is None
@@ -153,7 +156,8 @@ class Live:
         self.defaults = defaults if defaults is not None else defaults_for(variant)
         self.snap = snapshot_defaults(self.defaults)
         self.warn = (rng.random() < 0.5) if warn is None else warn
-        self.e = new_enforcer(self.box, variant, enforce_new, self.defaults, overwrite, warn=self.warn, nreg=0)
+        self.dup_dirs = dup_dirs
+        self.e = new_enforcer(self.box, variant, enforce_new, self.defaults, overwrite, warn=self.warn, nreg=0, dup_dirs=dup_dirs)
         self.roles = ['dflt', 'old', 'nobody', 'n'] + [f + '@fixed' for f in MUTABLE]
         self.trace = []
         self.last_print = None
@@ -190,7 +194,7 @@ class Live:
                 fresh_dec = None
                 if self.rng.random() < 0.4:
                     # the newly constructed enforcer may just as well read the files BEFORE the long-lived one
-                    fresh0 = new_enforcer(self.box, self.variant, getattr(self, 'enforce_new_now', self.enforce_new), self.defaults, self.overwrite, nreg=self.nreg)
+                    fresh0 = new_enforcer(self.box, self.variant, getattr(self, 'enforce_new_now', self.enforce_new), self.defaults, self.overwrite, nreg=self.nreg, dup_dirs=self.dup_dirs)
                     fresh_dec = decisions(fresh0, self.roles, 'enforce')
                     rec['_fresh_first'] = True
                 with _w.catch_warnings(record=True) as caught:
@@ -222,7 +226,7 @@ class Live:
                         if self.e.enforce(d.name, {}, {'roles': [r], 'system_scope': 'all'}):
                             rec['scopeblk'] = 0
                 if fresh_dec is None:
-                    fresh = new_enforcer(self.box, self.variant, getattr(self, 'enforce_new_now', self.enforce_new), self.defaults, self.overwrite, nreg=self.nreg)
+                    fresh = new_enforcer(self.box, self.variant, getattr(self, 'enforce_new_now', self.enforce_new), self.defaults, self.overwrite, nreg=self.nreg, dup_dirs=self.dup_dirs)
                     fresh_dec = decisions(fresh, self.roles, 'enforce')
                 rec['fresh'] = fresh_dec
                 if snapshot_defaults(self.defaults) != self.snap:
@@ -249,10 +253,10 @@ class Live:
             self.box.close()
 
 
-def run_history(rng, variant, enforce_new, history, via='enforce', defaults=None, overwrite=True, late=False):
+def run_history(rng, variant, enforce_new, history, via='enforce', defaults=None, overwrite=True, late=False, dup_dirs=False):
     """history: list of ('write', f, kind) / ('empty'|'touch'|'delete', f) /
     ('ignored', f) / ('load', force).  Returns the recorded trace."""
-    lv = Live(rng, variant, enforce_new, via=via, defaults=defaults, overwrite=overwrite, late=late)
+    lv = Live(rng, variant, enforce_new, via=via, defaults=defaults, overwrite=overwrite, late=late, dup_dirs=dup_dirs)
     try:
         for ev in history:
             lv.step(ev)
@@ -271,7 +275,7 @@ CONSTANTS
  StartReg = FALSE
  Names <- MCNames
  MainFile = "main"
- Dirs <- MCDirs
+ Dirs <- %s
  Loadable <- MCLoadable
  Ignored <- MCIgnored
  Defaults <- MCDefaults
@@ -285,7 +289,7 @@ def strip_trace(tr):
     return [{k: v for k, v in ev.items() if not k.startswith('_')} for ev in tr]
 
 
-def judge_traces(ctx, variant, enforce_new, traces, timeout=3000, overwrite=True, _canary=True):
+def judge_traces(ctx, variant, enforce_new, traces, timeout=3000, overwrite=True, _canary=True, dup_dirs=False):
     """returns list of (trace index, why, step) for rejected traces"""
     import json
     import os
@@ -297,7 +301,7 @@ def judge_traces(ctx, variant, enforce_new, traces, timeout=3000, overwrite=True
     try:
         with os.fdopen(fd, 'w') as f:
             json.dump([strip_trace(t) for t in traces], f, separators=(',', ':'))
-        res = tlc.run('Trace_Loader', CFG % ('TRUE' if enforce_new else 'FALSE', variant, 'TRUE' if overwrite else 'FALSE'), env={'VERIF_CASES': path},
+        res = tlc.run('Trace_Loader', CFG % ('TRUE' if enforce_new else 'FALSE', variant, 'TRUE' if overwrite else 'FALSE', 'MCDirsDup' if dup_dirs else 'MCDirs'), env={'VERIF_CASES': path},
                       cont=True, timeout=timeout)
     finally:
         os.unlink(path)
@@ -328,7 +332,7 @@ def judge_traces(ctx, variant, enforce_new, traces, timeout=3000, overwrite=True
         from harness import canary
         from checks import canaries
         canary.probe(ctx, 'Trace_Loader', [t for i, t in enumerate(traces, 1) if i not in bad], canaries.loader_trace,
-                     lambda trs: {i for i, _, _ in judge_traces(canary.NullCtx(), variant, enforce_new, trs, timeout, overwrite, _canary=False)}, k=8)
+                     lambda trs: {i for i, _, _ in judge_traces(canary.NullCtx(), variant, enforce_new, trs, timeout, overwrite, _canary=False, dup_dirs=dup_dirs)}, k=8)
     return [(cid - 1, w, l) for cid, (w, l) in sorted(bad.items())]
 
 
